@@ -79,7 +79,8 @@ def build(targets=("simrun_gen", "simrun_tcp"), extra=""):
 
 # ----------------------------------------------------------------- TLC
 def tlc(module, cfg, env=None, workers=1, timeout=1800, metadir=None, extra="", cwd=SPEC, java_opts=""):
-    md = metadir or os.path.join(WORK, "tlc", "%s-%d-%d" % (module, os.getpid(), int(time.time() * 1000) % 100000000))
+    import uuid
+    md = metadir or os.path.join(WORK, "tlc", "%s-%d-%s" % (module, os.getpid(), uuid.uuid4().hex[:12]))
     shutil.rmtree(md, ignore_errors=True)
     os.makedirs(md, exist_ok=True)
     gc = "-XX:ParallelGCThreads=2" if str(workers) in ("1", "2") else ""
